@@ -229,34 +229,38 @@ Definition is_valid_port (p : str) : bool :=
 
 Definition host_byte_ok (b : N) : bool := is_alnum b || (b =? 45) || (b =? 46).
 
+(** server_name.rs:37-48: what follows the host is nothing, or ":" and a valid port. *)
+Definition sn_after_host (port_ok : str -> bool) (s : str) (e : N) : outcome unit :=
+  if negb (len s =? e) then
+    match nth s e with
+    | None => Panic 2                                   (* as_bytes()[end_of_host] *)
+    | Some b =>
+        if negb (b =? 58) then Err E_InvalidServerName
+        else obind (slice_from s (e + 1)) (fun port =>
+             if port_ok port then Ok tt else Err E_InvalidServerName)
+    end
+  else Ok tt.
+
+(** server_name.rs:10-35: the end of the host ([check_empty]: the empty-host check of the fix). *)
+Definition sn_end_of_host (check_empty : bool) (s : str) : outcome N :=
+  if head_is 91 s then
+    match find 93 s with
+    | None => Err E_InvalidServerName
+    | Some e =>
+        obind (slice s 1 e) (fun lit =>
+        if ipv6_from_str lit then Ok (e + 1) else Err E_InvalidServerName)
+    end
+  else
+    let e := match find 58 s with Some i => i | None => len s end in
+    if check_empty && (e =? 0) then Err E_InvalidServerName
+    else obind (slice_to s e) (fun host =>
+         if existsb (fun b => negb (host_byte_ok b)) host then Err E_InvalidServerName
+         else Ok e).
+
 (** server_name.rs:3-48 [validate]. *)
 Definition validate_server_name (s : str) : outcome unit :=
   if is_empty s then Err E_InvalidServerName
-  else
-    obind
-      (if head_is 91 s then
-         match find 93 s with
-         | None => Err E_InvalidServerName
-         | Some e =>
-             obind (slice s 1 e) (fun lit =>
-             if ipv6_from_str lit then Ok (e + 1) else Err E_InvalidServerName)
-         end
-       else
-         let e := match find 58 s with Some i => i | None => len s end in
-         if e =? 0 then Err E_InvalidServerName
-         else obind (slice_to s e) (fun host =>
-              if existsb (fun b => negb (host_byte_ok b)) host then Err E_InvalidServerName
-              else Ok e))
-      (fun e =>
-         if negb (len s =? e) then
-           match nth s e with
-           | None => Panic 2                                   (* as_bytes()[end_of_host] *)
-           | Some b =>
-               if negb (b =? 58) then Err E_InvalidServerName
-               else obind (slice_from s (e + 1)) (fun port =>
-                    if is_valid_port port then Ok tt else Err E_InvalidServerName)
-           end
-         else Ok tt).
+  else obind (sn_end_of_host true s) (sn_after_host is_valid_port s).
 
 (** lib.rs:25-37 [validate_id]. *)
 Definition validate_id (s : str) (sigil : N) : outcome unit :=
@@ -503,33 +507,11 @@ Module Legacy.
              obind (validate_key_name k name) (fun _ => Ok i8))
     end.
 
-  (** server_name.rs before 7999f9b / the empty-host fix: no empty-host check, port = [u16::from_str]. *)
+  (** server_name.rs before 7b50f76 / 7999f9b: no empty-host check, port = [u16::from_str]. *)
   Definition validate_server_name (s : str) : outcome unit :=
     if is_empty s then Err E_InvalidServerName
-    else
-      obind
-        (if head_is 91 s then
-           match find 93 s with
-           | None => Err E_InvalidServerName
-           | Some e =>
-               obind (slice s 1 e) (fun lit =>
-               if ipv6_from_str lit then Ok (e + 1) else Err E_InvalidServerName)
-           end
-         else
-           let e := match find 58 s with Some i => i | None => len s end in
-           obind (slice_to s e) (fun host =>
-           if existsb (fun b => negb (host_byte_ok b)) host then Err E_InvalidServerName
-           else Ok e))
-        (fun e =>
-           if negb (len s =? e) then
-             match nth s e with
-             | None => Panic 2
-             | Some b =>
-                 if negb (b =? 58) then Err E_InvalidServerName
-                 else obind (slice_from s (e + 1)) (fun port =>
-                      match u16_from_str port with Some _ => Ok tt | None => Err E_InvalidServerName end)
-             end
-           else Ok tt).
+    else obind (sn_end_of_host false s)
+               (sn_after_host (fun p => match u16_from_str p with Some _ => true | None => false end) s).
 
   (** mxc_uri.rs before 3cd3b0b: [NonZeroU8::new((index + 6) as u8).unwrap()]. *)
   Definition validate_mxc (s : str) : outcome N :=
